@@ -75,6 +75,19 @@ def run_tee(case, stats):
                 out["end"] = "done"
             except Cancel as got:
                 out["end"] = "cancel" if got is exc else "foreign-cancel"
+                # "nothing poisoned": the children the cancellation did not go through keep working - each of
+                # them can still be read to its end
+                hit = c
+                for other in range(case["n"]):
+                    if other == hit:
+                        continue
+                    try:
+                        async for _ in handle[other]:
+                            pass
+                    except BaseException as err:  # noqa: BLE001
+                        out["survivor"] = f"child {other} failed after child {hit} was cancelled: {err!r}"
+                        break
+                    advanced.add(other)
             finally:
                 await handle.aclose()
 
@@ -93,6 +106,8 @@ def run_tee(case, stats):
             viols.append({"key": "tee/foreign-suspension", "msg": f"{head}: {foreign[0]}"})
         if out.get("end") != "cancel":
             viols.append({"key": "tee/cancel-not-propagated", "msg": f"{head}: ended {out.get('end')}"})
+        if out.get("survivor"):
+            viols.append({"key": "tee/poisoned-after-cancel", "msg": f"{head}: {out['survivor']}"})
         if lock.owner is not None:
             viols.append({"key": "tee/lock-held-after-cancel", "msg": f"{head}: lock owned by {lock.owner}"})
         if case["flav"] != "async_class_bare" and not st.released():
